@@ -34,6 +34,8 @@ STATE = {'active': False, 'installed': False, 'allowed_names': None, 'allowed_mo
 CANARY_DIR = os.path.join(VERIF_DIR, '.work', 'canary')
 import tempfile
 TMPDIR = tempfile.gettempdir()
+KNOWN_PREFIXES = tuple(sorted(set(os.path.realpath(p) for p in (sys.prefix, sys.base_prefix, sys.exec_prefix, '/venv', '/repo',
+                                                                 VERIF_DIR, os.environ.get('VERIF_REPO', '/repo')))))
 WRITE_FLAGS = os.O_WRONLY | os.O_RDWR | os.O_CREAT | os.O_APPEND | os.O_TRUNC
 
 
@@ -168,6 +170,7 @@ def probe_grid():
     g.append({'id': 'id0', 'x': 1.0, 'y': 'text', 'z': hszinc.MARKER, 'r': hszinc.Ref('id1')})
     g.append({'id': 'id1', 'x': hszinc.XStr('Foo', 'p'), 'y': hszinc.Uri('u'), 'r': hszinc.Ref('id0')})
     g.append({'id': 'id2', 'x': datetime.date(2020, 1, 1), 'y': hszinc.Quantity(5.0, 'kW'), 'z': [1.0, 'a']})
+    g.append({'id': 'id3', 'x': hszinc.Bin('text/plain'), 'y': hszinc.Coordinate(1.0, 2.0), 'z': {'a': 1.0}})
     return g
 
 
@@ -239,7 +242,9 @@ def check(case):
                 raise Violation('payload-compiled-as-code', case, 'compiled source contains the identifiers %r taken from the filter text' % bad, tags)
         elif ev[0] == 'import' and 'zzcanary' in ev[1]:
             raise Violation('import', case, 'import of %r' % ev[1], tags)
-        elif ev[0] == 'open' and ('canary' in ev[1] or ev[2]):
+        elif ev[0] == 'open' and ('canary' in ev[1] or ev[2] or not ev[1].startswith(KNOWN_PREFIXES)):
+            # (reading its own data files, e.g. pytz zone files inside the installed package, is the library's business;
+            # writing, or opening anything outside the interpreter / package / repository trees, is not)
             raise Violation('file-opened', case, 'open(%r%s)' % (ev[1], ' for writing' if ev[2] else ''), tags)
         elif ev[0] == 'danger':
             raise Violation('process-or-network', case, '%s %s' % (ev[1], ev[2]), tags)
@@ -283,6 +288,7 @@ def payloads():
                     '__class__', '__dict__', '__init__', 'use_pint("1")', 'use_pint', 'to_pint("m")', 'ureg', 'long("1")',
                     'Quantity("1")', 'Grid("3.0")', 'parse_filter("x")', 'filter_function("x")', 'lru_cache', 'itertools',
                     ' and '.join('t%d == %d' % (i, i) for i in range(60)), ' or '.join('not t%d' % i for i in range(120)),
+                    'Cuba', 'Zulu', 'Etc/GMT+5', 'Factory', 'posixrules', 'text/plain', 'image/png; x=1',
                     '(' * 30 + 'x' + ')' * 30, '(' * 140 + 'x' + ')' * 140, '(' * 400 + 'x == 1' + ')' * 400, '"' + 'A' * 5000 + '"',
                     'print("zz")', 'len("abc")', 'repr', 'id', 'type', 'str', 'NOT_FOUND', '_get_path', 'Ref("a")', 'XStr("a","b")',
                     'MARKER', 'os', 'sys', 'datetime.date(2020,1,1)', 'timezone("UTC")', 'NA', 'float("nan")', 'True', 'None']
@@ -362,9 +368,30 @@ def all_cases():
                 yield {'filter': sh % atom, 'payload': p, 'slot': slot, 'shape': si}
 
 
+# not filters by the grammar of Appendix C (tag names are [a-z][a-zA-Z0-9_]*): must be rejected with a parse error
+MUST_REJECT = ['__class__', 'Exec', 'a->__dict__', '_x', '9a', 'a->B', 'x == {__reduce__}', 'x == {Foo}', 'not _a', 'A == 1',
+               'x and __import__', 'x or Y', 'x->_y == 1', 'x ==', '== 1', 'x == == 1', 'x and', '()', 'x y', 'x == 1 2',
+               'x === 1', 'x = 1', 'x == "unterminated', 'x == `unterminated', 'x == @', 'x -> y', 'x == 1 and (y', 'x == 1)']
+
+
+def check_must_reject(text):
+    import pyparsing
+    install()
+    case = {'filter': text, 'payload': '', 'slot': 'must-reject'}
+    g = probe_grid()
+    try:
+        g.filter(text)
+    except (pyparsing.ParseBaseException, ValueError):
+        return
+    except BaseException as e:  # noqa
+        raise Violation('non-parse-error', case, 'invalid filter raised %s instead of a parse error' % describe_exc(e), ('must-reject',))
+    raise Violation('invalid-filter-accepted', case, 'a text that is not a filter was accepted and evaluated', ('must-reject',))
+
+
 def plan(tier, seed, excl):
     q = tier == 'quick'
-    t = [('table', {'shard': i, 'of': 16, 'full': True}) for i in range(16)]
+    t = [('must-reject', {})]
+    t += [('table', {'shard': i, 'of': 16, 'full': True}) for i in range(16)]
     t += [('random', {'shard': i, 'n': 3000 if q else 15000}) for i in range(8)]
     t += [('atheris', {'shard': i, 'runs': 5000 if q else 100000, 'empty_corpus': i == 0}) for i in range(2 if q else 4)]
     return t
@@ -373,7 +400,18 @@ def plan(tier, seed, excl):
 def run(part, args, env):
     acc = Acc(part)
     install()
-    if part == 'table':
+    if part == 'must-reject':
+        n = 0
+        for text in MUST_REJECT:
+            for sh in SHAPES[:4]:
+                n += 1
+                try:
+                    check_must_reject(sh % text if sh != '%s' else text)
+                except Violation as v:
+                    acc.violation(v)
+        acc.bulk(n, n, labels=('must-reject',))
+        acc.sample({'filter': MUST_REJECT[0], 'expect': 'parse error'})
+    elif part == 'table':
         n = nt = 0
         for i, case in enumerate(all_cases()):
             if i % args['of'] != args['shard']:
@@ -432,4 +470,6 @@ def run(part, args, env):
 
 
 def replay(stage, case):
+    if case.get('slot') == 'must-reject':
+        return check_must_reject(case['filter'])
     check(case)
